@@ -207,6 +207,11 @@ func (s *PfcpServer) receiver(wg *sync.WaitGroup) {
 		}
 
 		s.log.Tracef("receiver reads message(len=%d)", n)
+		if n == 0 {
+			// a zero-length datagram carries no PFCP message; passing it on
+			// would be taken for the receiver's own stop marker
+			continue
+		}
 		msgBuf := make([]byte, n)
 		copy(msgBuf, buf)
 		s.rcvCh <- ReceivePacket{
